@@ -13,6 +13,7 @@ static inline bool is_system_message(const char *topic);
 static int tell_if(void *data, const char *key, void *value);
 static ps_priv_t *alloc_ps_msg(const ps_priv_t *msg, ev_src_t *sub);
 static void ps_msg_dtor(void *data);
+static void ps_payload_dtor(void *data);
 static void tell_subscribers(void *data, void *value);
 static int tell_pubsub_msg(ps_priv_t *m, const m_mod_t *recipient, m_ctx_t *c);
 static int send_msg(m_mod_t *mod, const m_mod_t *recipient, const char *topic, 
@@ -87,6 +88,7 @@ static ps_priv_t *alloc_ps_msg(const ps_priv_t *msg, ev_src_t *sub) {
     if (m) {
         memcpy(m, msg, sizeof(ps_priv_t));
         m->msg.sender = m_mem_ref((void *)m->msg.sender); // keep module alive until message is dispatched
+        m->autofree = m_mem_ref(m->autofree); // keep autofree payload alive until last recipient is done with it
         m->sub = sub;
     }
     return m;
@@ -95,12 +97,15 @@ static ps_priv_t *alloc_ps_msg(const ps_priv_t *msg, ev_src_t *sub) {
 static void ps_msg_dtor(void *data) {
     ps_priv_t *pubsub_msg = (ps_priv_t *)data;
     
-    if (pubsub_msg->flags & M_PS_AUTOFREE) {
-        memhook._free((void *)pubsub_msg->msg.data);
-    }
+    m_mem_unref(pubsub_msg->autofree);
     if (pubsub_msg->msg.sender) {
         m_mem_unref((void *)pubsub_msg->msg.sender);
     }
+}
+
+/* Payload of a M_PS_AUTOFREE message: freed once, when the last copy of the message (and the sender) dropped it */
+static void ps_payload_dtor(void *data) {
+    memhook._free(*(void **)data);
 }
 
 static void tell_subscribers(void *data, void *value) {
@@ -136,8 +141,17 @@ static int send_msg(m_mod_t *mod, const m_mod_t *recipient, const char *topic,
     M_PARAM_ASSERT(message);
 
     mod->stats.sent_msgs++;
-    ps_priv_t m = { { false, mod, topic, message }, flags, NULL };
-    return tell_pubsub_msg(&m, recipient, mod->ctx);
+    ps_priv_t m = { { false, mod, topic, message }, flags, NULL, NULL };
+    if (flags & M_PS_AUTOFREE) {
+        /* Every recipient gets its own copy of the message; the payload must be freed only once */
+        m.autofree = m_mem_new(sizeof(void *), ps_payload_dtor);
+        M_ALLOC_ASSERT(m.autofree);
+        *m.autofree = (void *)message;
+    }
+    const int ret = tell_pubsub_msg(&m, recipient, mod->ctx);
+    /* Drop sender's reference: if nobody was eligible, payload is freed right now */
+    m_mem_unref(m.autofree);
+    return ret;
 }
 
 /** Private API **/
@@ -147,7 +161,7 @@ int tell_system_pubsub_msg(const m_mod_t *recipient, m_ctx_t *c, m_mod_t *sender
         // A module sent a M_PS_MOD_POISONPILL message to another, or it was stopped
         sender->stats.sent_msgs++;
     }
-    ps_priv_t m = { { true, sender, topic, NULL }, 0, NULL };
+    ps_priv_t m = { { true, sender, topic, NULL }, 0, NULL, NULL };
     return tell_pubsub_msg(&m, recipient, c);
 }
 
